@@ -256,6 +256,111 @@ func xlateTie(r *Result, mainPool *DriverPool, rng *rand.Rand, n int) error {
 		}
 	}
 	r.Add("xlate_codec_scripts", n/2)
+	// the operation level: writeLiteral / writeMatch sequences (rep-register hits, short reps, fresh distances up to the
+	// end marker, lengths 1…273), closed, reopened and read back with readOp, also past the end / with a truncated stream
+	for i := 0; i < n/4; i++ {
+		lc, lp, pb := rng.Intn(9), rng.Intn(5), rng.Intn(5)
+		if lc+lp > 5 {
+			lc, lp = rng.Intn(4), rng.Intn(3) // keep the probability arrays of the literal codec small
+		}
+		k := 1 + rng.Intn(40)
+		var steps []string
+		reps := [4]int64{1, 1, 1, 1}
+		for j := 0; j < k; j++ {
+			if rng.Intn(3) == 0 {
+				steps = append(steps, fmt.Sprintf("wl,%d", rng.Intn(256)))
+				continue
+			}
+			var dist int64
+			nn := 2 + rng.Intn(272)
+			switch rng.Intn(6) {
+			case 0:
+				dist = reps[0]
+				if rng.Intn(2) == 0 {
+					nn = 1
+				}
+			case 1:
+				dist = reps[1+rng.Intn(3)]
+			case 2:
+				dist = int64(1) << uint(rng.Intn(33))
+			case 3:
+				dist = 1 << 32 // the end marker
+			default:
+				dist = 1 + int64(rng.Uint32()>>uint(rng.Intn(32)))
+			}
+			steps = append(steps, fmt.Sprintf("wm,%d,%d", dist, nn))
+			// the harness's own copy of the rep registers (only to aim at them; the tie compares the real ones)
+			hit := -1
+			for g := 0; g < 4; g++ {
+				if reps[g] == dist {
+					hit = g
+					break
+				}
+			}
+			if hit < 0 {
+				hit = 3
+			}
+			copy(reps[1:hit+1], reps[0:hit])
+			reps[0] = dist
+		}
+		limit := int64(1<<63 - 1)
+		if rng.Intn(4) == 0 {
+			limit = int64(5 + rng.Intn(8*k+10))
+		}
+		steps = append(steps, "sume", "close", "open")
+		for j := 0; j < k+3; j++ {
+			steps = append(steps, "ro")
+		}
+		steps = append(steps, "sumd")
+		var goSteps []string
+		for _, st := range steps {
+			goSteps = append(goSteps, strings.ReplaceAll(st, ",", " "))
+		}
+		goOut := canonPanics(strings.Join(lzma.VerifOpScript(limit, lc, lp, pb, goSteps), "|"))
+		req := fmt.Sprintf("gosrc op %d %d %d %d %s", limit, lc, lp, pb, strings.Join(steps, " "))
+		leanOut, err := dp.Ask(req)
+		if err != nil {
+			return err
+		}
+		leanOut = canonPanics(leanOut)
+		r.Count("xlate-op/"+req, true)
+		if goOut != leanOut {
+			mism("operations", req, goOut, leanOut)
+		}
+		if strings.Contains(goOut, "errEOS") {
+			r.Inc("xlate_op_eos_hit")
+		}
+		if strings.Contains(goOut, "ErrLimit") {
+			r.Inc("xlate_op_limit_hit")
+		}
+	}
+	r.Add("xlate_op_scripts", n/4)
+	// byteAt of both dictionaries on raw ring states
+	for i := 0; i < n; i++ {
+		size := 2 + rng.Intn(40)
+		data := make([]byte, size)
+		rng.Read(data)
+		front, rear := rng.Intn(size), rng.Intn(size)
+		head := int64(rng.Intn(3 * size))
+		capacity := 1 + rng.Intn(size)
+		dist := rng.Intn(2*size) - 2
+		enc := rng.Intn(2) == 0
+		want := fmt.Sprint(lzma.VerifDictByteAt(enc, data, front, rear, head, capacity, dist))
+		eb := "0"
+		if enc {
+			eb = "1"
+		}
+		req := fmt.Sprintf("gosrc byteat %s %s %d %d %d %d %d", eb, hx(data), front, rear, head, capacity, dist)
+		got, err := dp.Ask(req)
+		if err != nil {
+			return err
+		}
+		r.Count("xlate-byteat/"+req, true)
+		if got != want {
+			mism("byteAt", req, want, got)
+		}
+	}
+	r.Add("xlate_byteat_requests", n)
 	// pure functions
 	ask := func(req, want string) error {
 		got, err := dp.Ask(req)
